@@ -58,4 +58,65 @@ PROPS = {
             "the returned sequence is not required to be independent of the split, only Ok/Err and the multiset",
         ],
     },
+    "C11": {
+        "module": "build",
+        "level": "fault_enumeration",
+        "rule": ("fault images of the source file the driver reads, for every base text (the repository's test theories, its "
+                 "error-test sources, the buildsim theory families): truncation at EVERY char boundary (exhaustive for base texts "
+                 "up to the tier's size limit, seeded sample beyond), final newline stripped, CRLF on all / on a seeded subset of "
+                 "lines, lone CR, BOM, torn overwrite (prefix of A + suffix of B at line boundaries), dropped / duplicated line, "
+                 "one char replaced by a 2-4 byte code point, NUL. Each image goes through the real eqlog::process (module build) "
+                 "with the rendering of the error inside catch_unwind. Non-trivial = any image other than the unmodified base; "
+                 "distinct = distinct outcomes (hash of the rendered diagnostic, or of the generated module when accepted)."),
+        "real": ["eqlog::process end to end (parser, semantic checks, error rendering, code generation) built from /repo's working tree",
+                 "real file system (per-run scratch directory on tmpfs) for the source and the outputs"],
+        "stub": ["none for this property (module builds start no compiler)"],
+        "assumptions": [
+            "only valid UTF-8 images (the property's quantifier); only the listed fault kinds, not arbitrary token sequences",
+            "an Err whose text does not start with 'Error: ' (an I/O error) is accepted as is",
+            "a hang would surface as the check exceeding its time limit; no wall-clock oracle is used",
+        ],
+    },
+    "C12": {
+        "module": "build",
+        "level": "fault_enumeration",
+        "rule": ("for every unit (family, vA, vB, build type, scheduler seed, width of the parallel section): Build(vA); Edit(vB); "
+                 "Build(vB) is run once with crash-image recording, giving the surviving tree for a kill before EVERY mutating "
+                 "seam call k plus torn variants (target truncated to 0 bytes / to its first half; partial rlib) -- exhaustive "
+                 "over crash points of that build; plus the completed build, compiler failures at every rustc call, injected "
+                 "I/O errors on mutations and reads; from every such state: Edit(vC); Build; Build (no-op clause) for vC in "
+                 "{vA, vB, third version}. Quick tier: a seeded subset of (vA, vB) pairs per family; thorough: all pairs, 4 "
+                 "schedules, plus seeded 3-12 step histories with up to 4 faults executed through the real kill path. Every "
+                 "difference found on a crash image is re-executed through the real kill path (unwinding through "
+                 "eqlog::process) before it is reported. Non-trivial = the kill landed after >= 1 mutation of the build; distinct "
+                 "= distinct (surviving tree, vC) pairs."),
+        "real": ["eqlog::process end to end, called in-process; its fs / Command / par_bridge calls go through hook H1",
+                 "real file system: the simulated disk is a scratch tree on tmpfs, only the moments of mutation are simulated",
+                 "real threads in the parallel section, released one at a time by the seeded scheduler"],
+        "stub": ["rustc: an in-process stub writes RLIB\\0 + sha256(component source, path-free flags) to the -o path",
+                 "rayon pool: replaced by the park-and-release scheduler (width knob 1/2/4/all)"],
+        "assumptions": [
+            "process death = unwinding panic at a seam call; build.rs holds no guard that touches the disk on unwind",
+            "no power-loss faults (lost unsynced writes): the property speaks of killed builds",
+            "a surviving build that fails or panics is not judged (the property speaks of builds that report success); counted in counters",
+        ],
+    },
+    "C13": {
+        "module": "build",
+        "level": "exploration",
+        "rule": ("every theory (buildsim families, the repository's test theories; the three multi-second ones only in the "
+                 "thorough tier) x {module, component}: one canonical build plus seeded variants per shard (scheduler seed, width "
+                 "of the parallel section in {1,2,4,all}, scratch directory names and depth, relative vs absolute paths, cold vs "
+                 "after an edit cycle, repetition inside one process) compared byte for byte (module, component sources, "
+                 "digests, stub rlibs); all 16 shard processes build every theory and their tree hashes are compared across "
+                 "processes (ASLR off on odd shards, environment padding). Non-trivial = a successful build with outputs; "
+                 "distinct = distinct (output tree, scheduler seed) pairs."),
+        "real": ["eqlog::process end to end through hook H1; real threads under the seeded scheduler; real file system"],
+        "stub": ["rustc stub (its output is a function of the component source, so rlibs add nothing beyond the sources)",
+                 "rayon pool replaced by the seeded scheduler; an uncontrolled real-rayon sample is not part of this check"],
+        "assumptions": [
+            "theory file name is held fixed (it is a declared input of the function)",
+            "std's per-process SipHash keys cannot be seeded from outside; a difference that shows only across processes is reported with a statistical replay note",
+        ],
+    },
 }
